@@ -37,7 +37,7 @@ CLAIMS = {
         "C02.decoder_reads_every_operand (kernel-checked, for EVERY well-formed memory operand - any base, index, scale, displacement, address size - "
         "the canonical ModRM/SIB/displacement encoding is read back by the reference decoder as that operand), C02.disp_field_reads_back + X86.leVal_assembleConst + toSigned_roundtrip (kernel-checked, for EVERY displacement value: the "
         "bytes the model emits read back as the value and every signed disp8/disp32 is recovered), C11.swap_same_address / nobase_scale*_same_address "
-        "(the NASM rewritings keep the address for every register valuation). Tie: the family on the C implementation (thorough: all 17x16x4x13x2 "
+        "(the NASM rewritings keep the address for every register valuation). Memory forms also store a small negative immediate. Tie: the family on the C implementation (thorough: all 17x16x4x13x2 "
         "shapes for mov, lea, paddb, vaddpd) incl. [base+rsp], [1*rsp+disp] shapes, option bytes NASM/STRICT and both mixed SIB settings, decoded and "
         "compared; objdump cross-check of the decoder on every encoding.",
    note="Sweep by evaluation (native_decide axiom), see C01. RIP-relative operands are not in the documented syntax and not in the family.",
@@ -77,7 +77,10 @@ CLAIMS = {
         "rel32; long forces rel32, short rel8) and a line is rejected exactly when short is requested, or only rel8 exists, and d is outside "
         "-128..127. Theorems: Sweep.c05_sweep (about 47000 instances x 2 option bytes, model, by evaluation), C05.rel_field_reads_back (kernel-"
         "checked, EVERY d: a rel8/rel32 field holding d's two's complement reads back as d), C05.written_displacement (EVERY n: the written number "
-        "reaches the encoder unchanged, also with leading zeros). Register, memory and far-memory targets are instances of the C01/C02 families (call, jmp, callf, jmpf).",
+        "reaches the encoder unchanged, also with leading zeros), C05.rel_branch_every_d (kernel-checked, SYMBOLIC in d: for every relative-branch row "
+        "of the regenerated table - Lemmas.Branch.relKeys_classified puts each into the jmp/jcc, call/xbegin or jrcxz shape - EVERY d in "
+        "-2^31..2^31-1, with and without short/long, every option byte: rel8, rel32 or rejection exactly as stated, displacement field = d's two's "
+        "complement). Register, memory and far-memory targets are instances of the C01/C02 families (call, jmp, callf, jmpf).",
    note="Sweep by evaluation (native_decide axiom). 'short' on call/xbegin (no rel8 form exists) is not judged.",
    technique="Lean 4 reference decoder; finite-domain theorem (native_decide) + two's-complement lemmas for all displacements; differential run with decoding oracle",
    design="8/C05"),
